@@ -126,8 +126,42 @@ def _key_time(t):
     return t
 
 
+def enumerate_cases(tier):
+    """events created far apart: a long-running process has made millions of events before the two that tie"""
+    return [{"kind": "far-ids", "between": 2 ** 20 + 10, "ttype": tt, "low_first": lf}
+            for tt, lf in (("int", True), ("float", False))]
+
+
+def _run_far_ids(case, out):
+    from pydsol.core.eventlist import EventListHeap
+    from pydsol.core.simevent import SimEvent
+    t = 5 if case["ttype"] == "int" else 5.0
+    p1, p2 = (4, 5) if case["low_first"] else (5, 4)
+    a = SimEvent(t, _TARGET, "noop", p1)
+    c = SimEvent(t, _TARGET, "noop", p1)
+    for _ in range(case["between"]):
+        SimEvent(t, _TARGET, "noop", 5)
+    b = SimEvent(t, _TARGET, "noop", p2)
+    el = EventListHeap()
+    for e in (b, c, a):
+        el.add(e)
+    want = [b, a, c] if p2 > p1 else [a, c, b]
+    got = [el.pop_first() for _ in range(3)]
+    if [x is y for x, y in zip(got, want)] != [True] * 3:
+        names = {id(a): "early-1", id(c): "early-2", id(b): "late"}
+        out.fail("pop-order", {"events created far apart": case["between"], "priorities": {"early": p1, "late": p2},
+                               "got": [names.get(id(x)) for x in got], "want": [names[id(x)] for x in want]})
+    if not (a < c and (b < a) == (p2 > p1) and a != b):
+        out.fail("comparison", {"events created far apart": case["between"]})
+    out.nontrivial = True
+    out.label("kind=far-ids")
+    return out
+
+
 def run_case(case):
     out = Outcome()
+    if case.get("kind") == "far-ids":
+        return _run_far_ids(case, out)
     try:
         return _run_case(case, out)
     except Exception as e:
